@@ -11,7 +11,15 @@ import (
 	"time"
 )
 
-const repoDir = "/repo"
+// repoDir is the tree under test. VERIF_REPO exists only so that the machinery can be tried
+// against scratch worktrees carrying seeded changes in parallel (tools/try_patch_wt.sh); every
+// registered command runs without it and therefore rebuilds from /repo's working tree.
+var repoDir = func() string {
+	if d := os.Getenv("VERIF_REPO"); d != "" {
+		return d
+	}
+	return "/repo"
+}()
 
 var verifDir = func() string {
 	if v := os.Getenv("VERIF_DIR"); v != "" {
